@@ -354,3 +354,10 @@ func genC12(g *gen) {
 		}
 	}
 }
+
+func init() {
+	generators["C06"] = genC06
+	generators["C07"] = genC07
+	generators["C11"] = genC11
+	generators["C12"] = genC12
+}
